@@ -142,6 +142,11 @@ def loadCurrentOk (h : List Rec) (oid : Nat) : Bool :=
 
 def isStaged (t : Txn) (oid : Nat) : Bool := t.staged.any fun r => r.oid = oid
 
+/-- staged by `store` / `storeBlob` (not by an earlier `undo` of the same transaction, whose records
+    carry a back pointer or are un-creations) -/
+def stagedByStore (t : Txn) (oid : Nat) : Bool :=
+  t.staged.any fun q => q.oid = oid ∧ q.back = 0 ∧ q.kind ≠ .uncreate
+
 /-! ### two-phase commit with blobs -/
 
 def setTxn (s : St) (t : Txn) : St := { s with txn := some t }
@@ -268,15 +273,20 @@ structure UndoAcc where
   evs : List Ev
   failures : Bool     -- some record raised UndoError (reported after the loop)
   broken : Bool       -- a blob file to copy was missing (POSKeyError leaves the loop at once)
+  seen : List Nat     -- oids this undo call has handled (a transaction holds one record per oid)
 deriving DecidableEq, Repr
 
-/-- one iteration of the record loop of `_txn_undo_write` -/
+/-- one iteration of the record loop of `_txn_undo_write`.  The current record of the oid is the one
+    an earlier `undo` of the SAME transaction has staged (`_tindex`), else the committed one; a second
+    undo of the same oid in one transaction (`DB.undoMultiple`) replaces the staged record and renames
+    its blob copy over the in-flight file `(oid, tid)`. -/
 def undoOne (h : List Rec) (tid : Nat) (a : UndoAcc) (r : Rec) : UndoAcc :=
   if a.broken then a
-  else if a.staged.any (fun q => q.oid = r.oid) then { a with failures := true }   -- discipline: once per oid
-  else if ¬ undoable h r then { a with failures := true }
+  else if a.seen.contains r.oid then { a with failures := true }     -- discipline: one record per oid
+  else if ¬ undoable (a.staged ++ h) r then { a with failures := true }
   else
     let nr := undoRec h r tid
+    let rest := a.staged.filter fun q => q.oid ≠ r.oid
     match nr.kind with
     | .blob =>
       -- copy the blob file of the revision being restored to a temp file, move it into place
@@ -284,10 +294,17 @@ def undoOne (h : List Rec) (tid : Nat) (a : UndoAcc) (r : Rec) : UndoAcc :=
       | none => { a with broken := true }
       | some b =>
         { a with files := aset a.files (r.oid, tid) b, dirty := (r.oid, tid) :: a.dirty,
-                 staged := nr :: a.staged,
+                 staged := nr :: rest, seen := r.oid :: a.seen,
                  evs := a.evs ++ [.create .scratch, .write .scratch,
                                   .rename .scratch (.blob (r.oid, tid))] }
-    | _ => { a with staged := nr :: a.staged }
+    | _ =>
+      match aget a.files (r.oid, tid) with
+      | some _ =>
+        -- EXCLUDED: an earlier undo of this transaction left its blob copy under (oid, tid) and this
+        -- one un-creates the object (undoMultiple of a rewrite and of the creation): the code leaves
+        -- that file behind; such multi-undos are not generated (observation in the registry note)
+        { a with failures := true }
+      | none => { a with staged := nr :: rest, seen := r.oid :: a.seen }
 
 /-- records of transaction `utid` in file order (oldest first) -/
 def txnRecs (h : List Rec) (utid : Nat) : List Rec := (h.filter fun r => r.tid = utid).reverse
@@ -302,12 +319,12 @@ def undo (s : St) (utid : Nat) : St × List Ev × Out :=
     | none => (s, [], .err .txn)
     | some t =>
       let recs := txnRecs s.hist utid
-      if t.voted ∨ recs.any (fun r => isStaged t r.oid) then (s, [], .err .misuse)
+      if t.voted ∨ recs.any (fun r => stagedByStore t r.oid) then (s, [], .err .misuse)
       else if utid ≤ s.packedTo then (failTxn s t, [], .err .undo)   -- status 'p': not undoable
       else
         let a := recs.foldl (undoOne s.hist t.tid)
           { files := s.files, dirty := s.dirty, staged := t.staged, evs := [],
-            failures := false, broken := false }
+            failures := false, broken := false, seen := [] }
         ({ s with files := a.files, dirty := a.dirty,
                   txn := some { t with staged := a.staged,
                                        failed := t.failed || a.failures || a.broken } },
